@@ -9,6 +9,7 @@ import KlogV.Lemmas.Edits
 import KlogV.Lemmas.CommandEdits
 import KlogV.Props.C08
 import KlogV.Props.Rx.Reconciler
+import KlogV.Props.Rx.Model
 namespace KlogV.C03
 
 /-- Splicing: every line before the insertion point survives byte-for-byte (text and ending) —
